@@ -26,6 +26,8 @@ func checkC14(c *Ctx) {
 	checkTextUnits(c, u)
 	checkTemplateScanner(c, u)
 	checkDirectiveMachine(c, u)
+	u.buildSSA()
+	ruleFormatConst(c, u, "C14.fmtconst")
 	R.Exhaustive = true
 }
 
